@@ -94,6 +94,15 @@ func zzStallCycle(kind int) {
 	zzStalledAvg(e)
 	maxPwm := e.fan.GetMaxPwm()
 	err := c.UpdateFanSpeed()
+	zzv.Assert(zzv.Or(err == nil, err == ErrFanStalledAtMaxPwm), "P3.only_stall_error")
+	if err == nil {
+		// whatever the algorithm does, the request never stays where the fan stalled
+		zzv.Record("request", *c.lastSetPwm)
+		zzv.Assert(*c.lastSetPwm != l, "P2.request_does_not_stay_at_stalled_value")
+	}
+	if loop == 2 {
+		return // PID with an arbitrary loop term: the reference run says nothing about this cycle's target
+	}
 	if l >= maxPwm {
 		zzv.Assert(err == ErrFanStalledAtMaxPwm, "P3.stall_at_maximum_is_reported")
 		return
@@ -102,7 +111,6 @@ func zzStallCycle(kind int) {
 	if err != nil {
 		return
 	}
-	zzv.Record("request", *c.lastSetPwm)
 	zzv.Assert(*c.lastSetPwm == l+1, "P2.request_raised_by_one")
 	zzv.Assert(c.minPwmOffset == off+1, "P2.floor_raised")
 	re := e.fan.GetRpmAvg()
